@@ -143,6 +143,31 @@ class BoundsFromNodesArray(MeshArray):
         """
         return self._get_component("node_coordinates", default=default)
 
+    def get_filenames(self):
+        """Return the names of any files containing the data.
+
+        The bounds are computed from the node connectivity array and
+        from the node coordinates, so the files of both are returned.
+
+        :Returns:
+
+            `set`
+                The file names in normalised, absolute form. If the
+                data are all in memory then an empty `set` is
+                returned.
+
+        """
+        out = set(super().get_filenames())
+
+        node_coordinates = self.get_node_coordinates(None)
+        if node_coordinates is not None:
+            try:
+                out.update(node_coordinates.get_filenames())
+            except AttributeError:
+                pass
+
+        return out
+
     def to_memory(self):
         """Bring data on disk into memory.
 
